@@ -111,36 +111,38 @@ def _usable(obs):
 
 def correspondence(ctx):
     res = CorrResult()
-    cases = [c["case"] for c in fc.load_corpus(ID)] + _cases(ctx, ctx.n(110, 1500))
+    cases = [c["case"] for c in fc.load_corpus(ID)] + _cases(ctx, ctx.n(95, 1100))
     terms, idx = [], []
     skipped = 0
     def take(c, obs, origin):
         nonlocal skipped
+        if c.get("malformed"):
+            return
         if obs.get("exn_type") == "RuntimeError":
             skipped += 1
             return
         if obs["exn"] is not None:
             res.disagreements.append({"name": "fit raised {}: {}".format(obs.get("exn_type"), obs.get("exn_text")),
-                                      "kind": origin["kind"] if origin["kind"] == "history" else "fit", "case": origin})
+                                      "kind": origin["kind"] if origin["kind"] in ("history", "multi") else "fit", "case": origin})
             return
         if not (obs["rec"]["polyfit"] or obs["rec"]["curve_fit"]):
             res.disagreements.append({"name": "a fit returned without calling numpy.polyfit / scipy curve_fit",
-                                      "kind": origin["kind"] if origin["kind"] == "history" else "fit", "case": origin})
+                                      "kind": origin["kind"] if origin["kind"] in ("history", "multi") else "fit", "case": origin})
             return
         res.evaluations += 1
         res.count("model:" + c["model"] + (":deg{}".format(c["deg"]) if c["model"] == "polynomial" else ""))
-        res.count("mode:" + (c["mode"] if origin is c else "history:" + origin["holder"]))
+        res.count("mode:" + (c["mode"] if origin is c else "multi" if origin["kind"] == "multi" else "history:" + origin["holder"]))
         res.count("xrange:" + ("pair" if isinstance(c["xrange"], list) else "whole"))
         res.count("yerr:" + ("none" if c["yerr"] is None else "per-point" if isinstance(c["yerr"], list) else "common")
                   + (":zeros-outside-range" if c.get("pattern") else ""))
         r = obs["result"]
         if "eval_exn" in r:
             res.disagreements.append({"name": "evaluating fit_function / residuals raised " + r["eval_exn"],
-                                      "kind": "history" if origin["kind"] == "history" else "fit", "case": origin})
+                                      "kind": origin["kind"] if origin["kind"] in ("history", "multi") else "fit", "case": origin})
             return
         flat = [r["scalar"], r["list"], r["array"], r["table"], r["residuals"], r["chi2"], r["pcorr"], r["getcorr"],
                 r["getcov"], r["printed"], obs["errs"], obs["params"]]
-        kind = "history" if origin["kind"] == "history" else "fit"
+        kind = origin["kind"] if origin["kind"] in ("history", "multi") else "fit"
         if not fc.finite(flat):
             res.disagreements.append({"name": "non-finite number in a fit result", "kind": kind, "case": origin})
             return
@@ -148,16 +150,29 @@ def correspondence(ctx):
             res.disagreements.append({"name": "fit_function(list/array) container type or result[i]", "kind": kind, "case": origin})
             return
         if len(obs["params"]) >= 3 or c["yerr"] is not None:
-            res.nontrivial.add(core.canonical_key("r", [c, origin.get("steps")]))
+            res.nontrivial.add(core.canonical_key("r", [c, origin.get("steps"), origin.get("fits") and len(origin["fits"])]))
         terms.append(fc.coq_res_case(c, obs))
         idx.append(origin)
 
     for c in cases:
-        if c["kind"] == "history":
+        if c["kind"] in ("history", "multi"):
             continue
+        if "plot" not in c and c.get("numtype") != "Fraction" and ctx.rng.random() < 0.12:
+            c["plot"] = True          # also draw the result and evaluate the fitted function again afterwards
         take(c, fc.run_case(c, observe_result=True), c)
+    multis = [c for c in cases if c["kind"] == "multi"]
+    while len(multis) < ctx.n(8, 80):
+        m = fc.gen_multi(ctx.rng)
+        if m:
+            multis.append(m)
+    for m in multis:
+        if not fc.multi_in_domain(m):
+            continue
+        res.count("multi:fits:{}".format(len(m["fits"])))
+        for c, obs in fc.run_multi(m):
+            take(c, obs, m)
     hists = [c for c in cases if c["kind"] == "history"]
-    while len(hists) < ctx.n(12, 150):
+    while len(hists) < ctx.n(10, 100):
         h = fc.gen_history(ctx.rng)
         if h:
             hists.append(h)
@@ -177,7 +192,11 @@ def correspondence(ctx):
                 "array, all residuals, chi-squared, ndof, uncertainties^2 = diagonal, reported correlation matrix, get_correlation and "
                 "get_covariance for every ordered pair of parameter objects, the matrix printed by str(result). Plus histories on one "
                 "XYDataSet / MeasurementArray pair (fit, edit uncertainties or a value in place, fit again, alternate two requests): every "
-                "result of the history is checked against the data as they are at that call. non-trivial = at least 3 "
+                "result of the history is checked against the data as they are at that call. Plus sessions of 2-4 fits whose parameters "
+                "carry the same names (same model, other data; sometimes another model in between) where ALL results are observed only "
+                "after the last fit. In every observation fit_function is evaluated a second time at each point after the value "
+                "returned first was switched to Monte Carlo / recalculated / given other Monte Carlo settings / overridden, and for 12 % "
+                "of the results after the result was drawn (Agg); the repeated value must be the very same number. non-trivial = at least 3 "
                 "parameters or y-uncertainties present (distinct by content)")
     res.samples = cases[:2]
     shards, index = [], []
@@ -193,7 +212,7 @@ def correspondence(ctx):
             continue
         for i in bad[0]:
             res.disagreements.append({"name": "Model.FitCases.check_res vs XYFitResult / fit_function / get_correlation",
-                                      "kind": "history" if idx[base + i]["kind"] == "history" else "fit", "case": idx[base + i]})
+                                      "kind": idx[base + i]["kind"] if idx[base + i]["kind"] in ("history", "multi") else "fit", "case": idx[base + i]})
     return res
 
 
@@ -253,12 +272,30 @@ def check_one_covariance(params, errs, r, rec):
     return None, cov
 
 
+def check_multi_oracle(case):
+    """several results alive at once: every one of them, looked at AFTER all the fits, is still self-consistent"""
+    if not fc.multi_in_domain(case):
+        return None
+    runs = fc.run_multi(case)
+    for i, (c, obs) in enumerate(runs):
+        why = check_oracle(c, obs)
+        if why:
+            later = len(runs) - 1 - i
+            return "result {} of {} fits ({}), looked at after {} later fit(s): {}".format(
+                i + 1, len(runs), ", ".join(x["model"] for x in case["fits"]), later, why)
+    return None
+
+
 def check_oracle(case, obs=None):
     if case["kind"] == "history":
         return check_history_oracle(case)
+    if case["kind"] == "multi":
+        return check_multi_oracle(case)
     if not fc.in_domain(case):
         return None
     obs = obs or fc.run_case(case, observe_result=True)
+    if case.get("malformed"):
+        return None           # rejected requests are C06's business; here they only sit between the fits of a history
     if obs.get("exn_type") == "RuntimeError":
         return None
     if obs["exn"] is not None:
@@ -285,9 +322,10 @@ def check_oracle(case, obs=None):
     if not fc.finite([r["scalar"], r["list"], r["array"], r["residuals"], r["chi2"], r["band"]]):
         return "non-finite number in the fit result (parameters {} +/- {}, chi2 {})".format(params, errs, r["chi2"])
     # fit_function(x) = model(x; params), whichever way x is passed
+    ymag = max(abs(y) for y in case["ys"]) or 1.0          # the magnitude of the data (the numbers may be in any unit)
     for i, x in enumerate(r["eval"]):
         want = fc.ref_model(model, params, x)
-        sc = sum(abs(p) * abs(x) ** (n - 1 - k) for k, p in enumerate(params)) + 1 if model in fc.POLY_MODELS else abs(want) + 1
+        sc = sum(abs(p) * abs(x) ** (n - 1 - k) for k, p in enumerate(params)) + ymag if model in fc.POLY_MODELS else abs(want) + ymag
         for how in ("scalar", "list", "array"):
             if not close(r[how][i], want, 1e-9, 1e-9 * sc):
                 return ("fit_function({}) called with a {} is {!r}; the {} model with the returned parameters {} gives {!r}"
@@ -300,7 +338,7 @@ def check_oracle(case, obs=None):
     cscale = 0.0
     for i, (x, _, y, ye) in enumerate(pts):
         fx = fc.ref_model(model, params, x)
-        sc = abs(y) + abs(fx) + 1
+        sc = abs(y) + abs(fx) + ymag
         if not close(r["residuals"][i], y - fx, 1e-9, 1e-9 * sc):
             return "residual {} is {!r}; y_i - fit_function(x_i) = {!r} - {!r} = {!r}".format(i, r["residuals"][i], y, fx, y - fx)
         if ye > 0:
@@ -322,6 +360,22 @@ def check_oracle(case, obs=None):
         if not close(r["band"][i], want, 5e-6 * max(1.0, terms / var)):
             return ("uncertainty of fit_function({}) is {!r}; sqrt(g^T Cov g) with the gradient of the {} model at the returned "
                     "parameters is {!r}".format(x, r["band"][i], model, want))
+    # evaluating again at a point whose first returned value was modified by its owner / after the result was drawn
+    again = [(x, how, v, e) for x, how, v, e in zip(r["eval"], r.get("again_edit", []), r.get("again", []), r.get("again_band", []))]
+    again += [(x, "the result was plotted", v, e) for x, v, e in
+              zip(r.get("plot_eval", []), r.get("plot_again", []), r.get("plot_again_band", []))]
+    for x, how, v, e in again:
+        want = fc.ref_model(model, params, x)
+        sc = sum(abs(p) * abs(x) ** (n - 1 - k) for k, p in enumerate(params)) + ymag if model in fc.POLY_MODELS else abs(want) + ymag
+        if not (fc.finite([v, e]) and close(v, want, 1e-9, 1e-9 * sc)):
+            return ("fit_function({}) evaluated a second time, after the value returned the first time was modified ({}), is {!r}; "
+                    "the {} model with the returned parameters {} gives {!r}".format(x, how, v, model, params, want))
+        g = fc.ref_grad(model, params, x)
+        var = sum(g[a] * cov[a][b] * g[b] for a in range(n) for b in range(n))
+        terms = sum(abs(g[a] * cov[a][b] * g[b]) for a in range(n) for b in range(n))
+        if var > 1e-9 * terms and not close(e, math.sqrt(var), 5e-6 * max(1.0, terms / var)):
+            return ("uncertainty of fit_function({}) evaluated a second time, after the value returned the first time was modified "
+                    "({}), is {!r}; sqrt(g^T Cov g) is {!r}".format(x, how, e, math.sqrt(var)))
     return None
 
 
@@ -333,8 +387,12 @@ def _fresh_cases(ctx):
             c = _zero_yerr_outside(rng)
             if c:
                 yield c
-        elif r < 0.25:
+        elif r < 0.2:
             c = fc.gen_history(rng)
+            if c:
+                yield c
+        elif r < 0.3:
+            c = fc.gen_multi(rng)
             if c:
                 yield c
         elif r < 0.45:
@@ -367,8 +425,12 @@ def search(ctx, suspects, budget):
         why = check_oracle(case)
         if why:
             first = fc.signature(why)
-            shrink = fc.shrink_history if case["kind"] == "history" else fc.shrink_case
+            shrink = {"history": fc.shrink_history, "multi": fc.shrink_multi}.get(case["kind"], fc.shrink_case)
             small = shrink(case, lambda c: fc.signature(check_oracle(c)) == first)
+            if small["kind"] == "multi" and len(small["fits"]) == 1:
+                single = small["fits"][0]
+                if check_oracle(single):
+                    small = fc.shrink_case(single, lambda c: check_oracle(c) is not None)
             if small["kind"] == "history" and [st[0] for st in small["steps"]] == ["fit"]:
                 # no history is needed: report the plain single fit
                 single = dict(fc.history_states(small)[0][2])
@@ -380,7 +442,7 @@ def search(ctx, suspects, budget):
             if sig in seen:
                 continue
             seen.add(sig)
-            out.append(Violation(ID, "history" if small["kind"] == "history" else "fit", small, why))
+            out.append(Violation(ID, small["kind"] if small["kind"] in ("history", "multi") else "fit", small, why))
     ctx.notes.append("oracle: {} fit results recomputed with numpy-free code".format(n))
     # a mismatch between registered and reported correlations explains a later exception: report it first
     out.sort(key=lambda v: 0 if v.what.startswith(("get_correlation", "get_covariance", "reported correlation")) else
